@@ -162,6 +162,31 @@ def run(ctx):
                 elif e[0] == 'H_WRITE' and e[1][0] == 'handle' and 'packs' in areas(K, e[1][1]):
                     nwrite += 1
     chk.require(nopen >= 1, 'lock_pack: open(pack_file, "ab") not found')
+    # exclusivity of the lock: the lock file is created with mode 'x' (fails if it exists) and the pack is opened inside that with-block
+    lk = prog.fn('container:Container.lock_pack')
+    lock_open = pack_open = None
+    for n in walk_local(lk.node):
+        if isinstance(n, ast.With):
+            for it in n.items:
+                c = it.context_expr
+                if isinstance(c, ast.Call) and norm(c.func) == 'open':
+                    hk = K.kind(c, K.top_frame(lk))
+                    if hk[0] == 'handle' and is_lock_path(K, hk[1]):
+                        lock_open = (n, hk[2])
+                    elif hk[0] == 'handle' and 'packs' in areas(K, hk[1]):
+                        pack_open = n
+    nested = False
+    if lock_open and pack_open:
+        q = getattr(pack_open, '_parent', None)
+        while q is not None:
+            if q is lock_open[0]:
+                nested = True
+            q = getattr(q, '_parent', None)
+    if lock_open and lock_open[1] == 'x' and nested:
+        chk.ok(R1, lk.qualname, "with open(lock_file, 'x'): with open(pack_file, 'ab')", detail='exclusive creation of the lock file encloses the append handle: one writer per pack')
+    else:
+        chk.bad(R1, lk.qualname, f"lock file mode {lock_open[1] if lock_open else None!r}", "the lock file is not created exclusively (mode 'x') around the append handle: two packers could append to the same pack "
+                "and interleave their objects (every single-packer assumption of the other rules breaks)", where=f'{lk.module.relpath}:{lk.lineno}')
     if not r1bad:
         chk.ok(R1, 'container:Container.lock_pack', f'{nopen} write-open site(s) on pack paths', detail="only lock_pack, mode 'ab'")
     # writes go through the locked handle: in the writers' ICFGs every H_WRITE on a pack handle has the lock_pack open as its site
@@ -268,7 +293,36 @@ def run(ctx):
         else:
             chk.bad(R2s, SELECT, f'stop condition: {k2}', 'the loop no longer stops at the first pack that ' + ('does not exist' if k2 == 'missing' else 'is strictly below pack_size_target (a full pack would be written again, or a non-full one skipped)'),
                     where=f'{sel.module.relpath}:{sel.lineno}')
-    # size source: known_sizes first, else stat
+    # the cache remembers exactly the id that is returned (a larger value would skip a pack that is not full yet)
+    cache = [n for n in walk_local(sel.node) if isinstance(n, ast.Assign) and isinstance(n.targets[0], ast.Attribute) and n.targets[0].attr == '_current_pack_id']
+    if len(cache) == 1 and isinstance(cache[0].value, ast.Name) and cache[0].value.id == var and not isinstance(getattr(cache[0], '_parent', None), (ast.While, ast.For, ast.If)):
+        chk.ok(R2s, SELECT, norm(cache[0]), detail='the cached starting point is the returned id itself')
+    else:
+        chk.bad(R2s, SELECT, norm(cache[0]) if cache else '_current_pack_id', 'the cached pack id is not exactly the id returned: the next search would start beyond a pack that is not full (or the cache is set conditionally)',
+                where=f'{sel.module.relpath}:{(cache[0].lineno if cache else sel.lineno)}')
+    # size source: the caller's known size of the locked pack wins over stat() (stat under-reports a file with buffered appends)
+    kparam = sel.params[0] if sel.params else None
+    szv = None
+    for n in walk_local(sel.node):
+        if isinstance(n, ast.If) and isinstance(n.test, ast.Compare) and len(n.test.ops) == 1 and 'pack_size_target' in norm(n.test) and isinstance(n.test.left, ast.Name):
+            szv = n.test.left.id
+    okks = False
+    if kparam and szv:
+        for n in walk_local(sel.node):
+            if isinstance(n, ast.If) and kparam in {x.id for x in ast.walk(n.test) if isinstance(x, ast.Name)} and var in {x.id for x in ast.walk(n.test) if isinstance(x, ast.Name)}:
+                tb = [a for a in n.body if isinstance(a, ast.Assign) and norm(a.targets[0]) == szv]
+                fb = [a for a in n.orelse if isinstance(a, ast.Assign) and norm(a.targets[0]) == szv]
+                if len(tb) == 1 and len(fb) == 1 and norm(tb[0].value) == f'{kparam}[{var}]' and 'stat()' in norm(fb[0].value) and any(isinstance(c, ast.In) for x in ast.walk(n.test) if isinstance(x, ast.Compare) for c in x.ops):
+                    okks = True
+        # alternative spelling: size = known.get(pack_id) ... fall back to stat when None
+        for n in walk_local(sel.node):
+            if isinstance(n, ast.Assign) and norm(n.targets[0]) == szv and norm(n.value).replace(' ', '') in (f'{kparam}.get({var})',):
+                okks = True
+    if okks:
+        chk.ok(R2s, SELECT, f'{szv} = {kparam}[{var}] if known else stat()', detail='the known size of the (locked, possibly unflushed) pack is used when given')
+    else:
+        chk.bad(R2s, SELECT, 'size source', f'the size compared with pack_size_target is not `{kparam}[{var}]` when the caller knows it: stat() of the locked pack misses buffered appends, so the '
+                'fill decision lags and a pack grows beyond its target before the next one is started', where=f'{sel.module.relpath}:{sel.lineno}')
     return chk.finish(
         explanation=('Static ownership and typestate rules for the rsync-friendly layout: closed-world scan of every call that can open, write, truncate, rename, '
                      'link or unlink a path below packs/ (only lock_pack opens for writing, mode "ab"; only repack_pack removes/links); a per-iteration machine on the '
